@@ -478,7 +478,7 @@ impl Report {
     }
 }
 
-fn run_ext_case(drv: &mut Model, rep: &mut Report, log: &mut std::fs::File, s: &ExtSession) {
+fn run_ext_case(drv: &mut Model, rep: &mut Report, log: &mut Vec<String>, s: &ExtSession) {
     let id = format!("x-{}", s.name);
     let t0 = std::time::Instant::now();
     // round one
@@ -563,10 +563,11 @@ fn run_ext_case(drv: &mut Model, rep: &mut Report, log: &mut std::fs::File, s: &
         rep.oracle.push(format!("honest round-one message rejected by the sender ({impl_v}) -- {}", s.describe()));
     }
     let _ = drv.call("c01.drop", &[id]);
-    writeln!(log, "{} impl_verdict={impl_v} b={} model_time_ms={}", s.describe(), hex_of_scalar(&s.b), t0.elapsed().as_millis()).unwrap();
+    let _ = t0;
+    log.push(format!("{} impl_verdict={impl_v} b={}", s.describe(), hex_of_scalar(&s.b)));
 }
 
-fn run_ot_case(drv: &mut Model, rep: &mut Report, log: &mut std::fs::File, s: &OtSession) {
+fn run_ot_case(drv: &mut Model, rep: &mut Report, log: &mut Vec<String>, s: &OtSession) {
     let id = format!("o-{}", s.name);
     let t0 = std::time::Instant::now();
     match model_ot_new(drv, &id, s) {
@@ -636,7 +637,8 @@ fn run_ot_case(drv: &mut Model, rep: &mut Report, log: &mut std::fs::File, s: &O
         rep.oracle.push(format!("honest message 1 rejected by the sender ({impl_v}) -- {}", s.describe()));
     }
     let _ = drv.call("c01.drop", &[id]);
-    writeln!(log, "{} impl_verdict={impl_v} b={} model_time_ms={}", s.describe(), hex_of_scalar(&s.b), t0.elapsed().as_millis()).unwrap();
+    let _ = t0;
+    log.push(format!("{} impl_verdict={impl_v} b={}", s.describe(), hex_of_scalar(&s.b)));
 }
 
 /// The session of case `k` of the OT-extension variant (deterministic in (seed, k)).
@@ -672,31 +674,90 @@ pub fn ot_case(seed: u64, k: usize) -> OtSession {
     ot_session(seed, &format!("{k}:a=({n0},{n1}):sid={sn}"), sid, [a0, a1])
 }
 
+impl Report {
+    pub fn merge(&mut self, o: Report) {
+        self.n_eval += o.n_eval;
+        self.n_nontrivial += o.n_nontrivial;
+        for (k, v) in o.kinds {
+            *self.kinds.entry(k).or_default() += v;
+        }
+        self.disagree.extend(o.disagree);
+        self.oracle.extend(o.oracle);
+        self.samples.extend(o.samples);
+    }
+}
+
+/// Run `jobs` (closures over a private model instance) on `threads` worker threads; results are merged
+/// in job order, so the output does not depend on the scheduling.
+pub fn run_parallel<J>(jobs: Vec<J>, threads: usize) -> (Report, Vec<String>, u64)
+where
+    J: Fn(&mut Model, &mut Report, &mut Vec<String>) + Send + Sync,
+{
+    let n = jobs.len();
+    let next = std::sync::atomic::AtomicUsize::new(0);
+    let results: std::sync::Mutex<Vec<Option<(Report, Vec<String>)>>> = std::sync::Mutex::new((0..n).map(|_| None).collect());
+    let queries = std::sync::atomic::AtomicU64::new(0);
+    std::thread::scope(|sc| {
+        for _ in 0..threads.max(1).min(n.max(1)) {
+            sc.spawn(|| {
+                let mut m = Model::spawn();
+                loop {
+                    let i = next.fetch_add(1, std::sync::atomic::Ordering::SeqCst);
+                    if i >= n {
+                        break;
+                    }
+                    let mut rep = Report::new();
+                    let mut log = vec![];
+                    (jobs[i])(&mut m, &mut rep, &mut log);
+                    results.lock().unwrap()[i] = Some((rep, log));
+                }
+                queries.fetch_add(m.queries(), std::sync::atomic::Ordering::SeqCst);
+            });
+        }
+    });
+    let mut rep = Report::new();
+    let mut log = vec![];
+    for r in results.into_inner().unwrap().into_iter().flatten() {
+        rep.merge(r.0);
+        log.extend(r.1);
+    }
+    (rep, log, queries.into_inner())
+}
+
+pub fn n_threads(kv: &Args) -> usize {
+    kv.u64("threads", 8) as usize
+}
+
 pub fn run(kv: &Args) -> i32 {
     let seed = kv.u64("seed", 1);
     let out = kv.str("out", "/verif/build/run/C01");
     std::fs::create_dir_all(&out).unwrap();
     let (n_ext, n_ot) = if kv.thorough() { (150, 60) } else { (kv.u64("n_ext", 6) as usize, kv.u64("n_ot", 3) as usize) };
-    let mut drv = Model::spawn();
-    let mut rep = Report::new();
-    let mut log = std::fs::File::create(format!("{out}/cases.txt")).unwrap();
     let only = kv.get("only").map(|s| s.to_string());
+    let mut jobs: Vec<Box<dyn Fn(&mut Model, &mut Report, &mut Vec<String>) + Send + Sync>> = vec![];
     for k in 0..n_ext {
-        if let Some(o) = &only {
-            if *o != format!("ext{k}") { continue; }
+        if only.as_ref().map_or(false, |o| *o != format!("ext{k}")) {
+            continue;
         }
-        let s = ext_case(seed, k);
-        rep.kind(if s.name.contains("pipeline") { "ext-pipeline-seeds" } else { "ext-synthetic-seeds" });
-        run_ext_case(&mut drv, &mut rep, &mut log, &s);
+        jobs.push(Box::new(move |m, rep, log| {
+            let s = ext_case(seed, k);
+            rep.kind(if s.name.contains("pipeline") { "ext-pipeline-seeds" } else { "ext-synthetic-seeds" });
+            run_ext_case(m, rep, log, &s);
+        }));
     }
     for k in 0..n_ot {
-        if let Some(o) = &only {
-            if *o != format!("ot{k}") { continue; }
+        if only.as_ref().map_or(false, |o| *o != format!("ot{k}")) {
+            continue;
         }
-        let s = ot_case(seed, k);
-        rep.kind("base-ot-variant");
-        run_ot_case(&mut drv, &mut rep, &mut log, &s);
+        jobs.push(Box::new(move |m, rep, log| {
+            let s = ot_case(seed, k);
+            rep.kind("base-ot-variant");
+            run_ot_case(m, rep, log, &s);
+        }));
     }
-    rep.write(&out, drv.queries());
+    let (mut rep, log, queries) = run_parallel(jobs, n_threads(kv));
+    rep.samples.truncate(6);
+    std::fs::write(format!("{out}/cases.txt"), log.join("\n") + "\n").unwrap();
+    rep.write(&out, queries);
     0
 }
